@@ -418,7 +418,7 @@ func init() {
 		Plan: func(tier string) fw.Plan {
 			nRand := 300
 			if tier == "thorough" {
-				nRand = 12000
+				nRand = 100000
 			}
 			return fw.Plan{
 				Level: "exploration",
@@ -566,6 +566,12 @@ func init() {
 				}
 				t := gen(depth0)
 				want, ok := t.eval()
+				for try := 0; !ok && try < 12; try++ {
+					defs = map[string]interface{}{}
+					nvar = 0
+					t = gen(depth0)
+					want, ok = t.eval()
+				}
 				if !ok {
 					c.Excluded("tree-outside-stated-domain")
 					continue
